@@ -1075,7 +1075,6 @@ func (gs *GossipSubRouter) handleGraft(p peer.ID, ctl *pb.ControlMessage) []*pb.
 	var prune []string
 
 	doPX := gs.doPX
-	score := gs.score.Score(p)
 	now := time.Now()
 
 	for _, graft := range ctl.GetGraft() {
@@ -1140,7 +1139,10 @@ func (gs *GossipSubRouter) handleGraft(p peer.ID, ctl *pb.ControlMessage) []*pb.
 			continue
 		}
 
-		// check the score
+		// check the score; it is read for every GRAFT of the RPC because refusing an
+		// earlier one (during backoff) penalises the peer and may have just turned
+		// its score negative
+		score := gs.score.Score(p)
 		if score < 0 {
 			// we don't GRAFT peers with negative score
 			gs.logger.Debug("GRAFT: ignoring peer with negative score", "peer", p, "score", score, "topic", topic)
